@@ -354,7 +354,9 @@ theorem no_step (c : Cfg) (hr : c.fixResub = true) (s : St) (e : Ev) (h : NoOrph
     simp only [step, handOff]
     split
     · exact h
-    · exact no_publish c _ _ _ none h
+    · split
+      · exact h
+      · exact no_publish c _ _ _ none h
   | timerFire p =>
     simp only [step]; split
     · exact no_sendEvents s p h
